@@ -187,7 +187,7 @@ func (g *Gen) TokenCall(from *Account, kind Kind, token, contract common.Address
 // from. For adversarial transactions only: the returned item's bookkeeping
 // describes the untouched transaction.
 func (g *Gen) UtxoSpendPre(o SpendOpts, pre func(tx *types.UTXOTransaction, dests []types.DestEntry)) *Item {
-	return g.utxoSpend(o, pre)
+	return g.utxoSpend(o, spendHooks{pre: pre})
 }
 
 // noteTokensAtCreation records (without changing any balance) issued tokens
@@ -208,4 +208,21 @@ func (l *Ledger) noteTokensAtCreation(addr common.Address) {
 			bump(l.TokensAtCreation, t, v)
 		}
 	}
+}
+
+// HiddenDelta is, for a confidential item, the value of the hidden outputs it
+// creates minus the true value of the hidden outputs it spends, as the
+// builder recorded them (nil for other items).
+func (it *Item) HiddenDelta() *big.Int {
+	if it == nil || it.utxo == nil {
+		return nil
+	}
+	d := new(big.Int)
+	for _, h := range it.utxo.outs {
+		d.Add(d, h.Amount)
+	}
+	for _, h := range it.utxo.spends {
+		d.Sub(d, h.Amount)
+	}
+	return d
 }
